@@ -22,6 +22,8 @@ PATTERNS = [(b'hello', False), (b'h(el)lo', False), (b'(w)(or)ld', False), (b' h
             (b'^say', False), (b'(plain) (text)', False), (b'needle|foo', False), (b'z*', False), (b'caf(\xc3\xa9)', False),
             (b'\xe6\xbc\xa2(\xe5\xad\x97)', False), (b'(\xf0\x9f\x98\x80) ok', False), (b'(x)=(y)?', False), (b'(q)?hello', False),
             (b'  +hello', False), (b'ok$', False),
+            # more than nine groups: every one of them that matched something is explained
+            (b'(h)(e)(l)(l)(o) (w)(o)(r)(l)(d)', False), (b'(h)(e)(l)(l)(o)( ?)(w)?(o)?(r)?(l)?(d)?', False),
             # matches that may span a line break ([[:space:]] matches a newline even with REG_NEWLINE): the group can sit
             # on a later line than the start of the match
             (b'([a-z]+)[[:space:]]+([a-z]+)', False), (b'o[[:space:]]+([a-z])', False), (b'[[:space:]]+(hello|world|say|foo)', False),
